@@ -16,9 +16,9 @@ every slot and patch validity by bitmap algebra, exactly like the code:
   or         : c = binary_op(||); valid |= (ra & va) | (rb & vb); clear_null   (since /repo 0494ff0)
   div, rem   : safen_dividend(b) then binary_op(/ or %)   (rem safened since /repo f444b3f)
 
-Integer raw values are `Int`s constrained to the width of the array (`IW`); arithmetic is the
-DEBUG build's (`+ - *` and unary `-` panic on overflow; `/ %` panic on a zero divisor and on
-`MIN / -1`), which is the profile of the repository's tests and of the harness.
+Integer raw values are `Int`s constrained to the width of the array (`IW`). Since /repo 5b4435f
+integer `+ - * / %` and unary `-` go through `try_binary_op` / `try_unary_op`: computed on valid
+slots only, `checked_*`, overflow = `Err` (before: on every raw slot, panicking in debug).
 
 Core Lean only (the driver links as `lean_exe`).
 -/
@@ -188,16 +188,18 @@ def selectOp {α} (s : Arr Bool) (a b : Arr α) : KOut (Arr α) :=
 
 /-! ### Integer arithmetic of the debug profile -/
 
-def chk (w : IW) (x : Int) : KOut Int := if w.fits x then .ok x else .panic
+/-- Checked integer arithmetic (since /repo 5b4435f): a result outside the type is
+`Err(ConvertError::IntegerOverflow)`. -/
+def chk (w : IW) (x : Int) : KOut Int := if w.fits x then .ok x else .err
 def addW (w : IW) (x y : Int) : KOut Int := chk w (x + y)
 def subW (w : IW) (x y : Int) : KOut Int := chk w (x - y)
 def mulW (w : IW) (x y : Int) : KOut Int := chk w (x * y)
 def negW (w : IW) (x : Int) : KOut Int := chk w (-x)
-/-- `a / b`: panics on zero and on `MIN / -1` (in every profile). Truncating division. -/
-def divW (w : IW) (x y : Int) : KOut Int := if y = 0 then .panic else chk w (Int.tdiv x y)
-/-- `a % b`: panics on zero and on `MIN % -1`. Sign follows the dividend. -/
-def remW (w : IW) (x y : Int) : KOut Int :=
-  if y = 0 then .panic else if x = w.lo ∧ y = -1 then .panic else .ok (Int.tmod x y)
+/-- `checked_div`: `None` (→ error) on a zero divisor and on `MIN / -1`. Truncating division. -/
+def divW (w : IW) (x y : Int) : KOut Int := if y = 0 then .err else chk w (Int.tdiv x y)
+/-- `checked_rem_total`: `checked_rem(..).unwrap_or(0)`: `MIN % -1` is 0 (and so would be a zero
+divisor, which the safening never lets through). Sign follows the dividend. -/
+def remW (_w : IW) (x y : Int) : KOut Int := if y = 0 then .ok 0 else .ok (Int.tmod x y)
 
 inductive ArithOp where
   | add | sub | mul | div | rem
@@ -258,6 +260,30 @@ def Col.len : Col → Nat
   | .int _ a => a.length
   | .str a => a.length
 
+/-- A slot-wise binary kernel: the recursive shape every binary kernel is shown to have. -/
+def zipSlotM {α β γ} (f : Slot α → Slot β → KOut (Slot γ)) : Arr α → Arr β → KOut (Arr γ)
+  | x :: xs, y :: ys =>
+    match f x y with
+    | .ok c =>
+      match zipSlotM f xs ys with
+      | .ok r => .ok (c :: r)
+      | .err => .err
+      | .panic => .panic
+    | .err => .err
+    | .panic => .panic
+  | [], [] => .ok []
+  | _, _ => .panic
+
+/-- The loop body of `try_binary_op` (since /repo 5b4435f): `f` only where both slots are valid;
+any other slot becomes NULL with the builder's default raw value. -/
+def trySlot {α β γ} (d : γ) (f : α → β → KOut γ) (s : Slot α) (t : Slot β) : KOut (Slot γ) :=
+  if s.valid && t.valid then (f s.raw t.raw).map fun c => ⟨true, c⟩ else .ok ⟨false, d⟩
+
+/-- `try_binary_op(a, b, f)`: `assert_eq!(a.len(), b.len())`, then a builder loop over
+`a.iter().zip(b.iter())`; the first `Err` ends it. -/
+def tryBinaryOp {α β γ} (d : γ) (f : α → β → KOut γ) (a : Arr α) (b : Arr β) : KOut (Arr γ) :=
+  if a.length ≠ b.length then .panic else zipSlotM (trySlot d f) a b
+
 /-- `div` and (since /repo f444b3f) `rem` pass the divisor through `safen_dividend`. -/
 def ArithOp.safens : ArithOp → Bool
   | .div | .rem => true
@@ -265,7 +291,7 @@ def ArithOp.safens : ArithOp → Bool
 
 /-- Integer arm of `arith!` at promoted width `w`; `div` / `rem` go through `safen_dividend`. -/
 def arithK (op : ArithOp) (w : IW) (a b : Arr Int) : KOut (Arr Int) :=
-  binaryOp (op.raw w) a (if op.safens then safenDividend b else b)
+  tryBinaryOp 0 (op.raw w) a (if op.safens then safenDividend b else b)
 
 /-- One arm of `cmp!`: `clear_null(binary_op(a, b, f))`. -/
 def cmpK {α} (f : α → α → Bool) (a b : Arr α) : KOut (Arr Bool) :=
@@ -321,7 +347,7 @@ def Col.not : Col → KOut Col
 /-- `ArrayImpl::neg` (integer arms; Int16 since /repo 942aa9d). -/
 def Col.neg : Col → KOut Col
   | .int w a =>
-    match unaryOp (negW w) a with
+    match tryUnaryOp 0 (negW w) a with
     | .ok c => .ok (.int w c)
     | .err => .err
     | .panic => .panic
@@ -557,8 +583,7 @@ def specArith (op : ArithOp) (w : IW) (x y : Option Int) : KOut (Option Int) :=
     | .mul => if w.fits (a * b) then .ok (some (a * b)) else .err
     | .div => if b = 0 then .ok none
               else if w.fits (Int.tdiv a b) then .ok (some (Int.tdiv a b)) else .err
-    | .rem => if b = 0 then .ok none
-              else if a = w.lo ∧ b = -1 then .ok (some 0) else .ok (some (Int.tmod a b))
+    | .rem => if b = 0 then .ok none else .ok (some (Int.tmod a b))
   | _, _ => .ok none
 
 def specCmp {α} (f : α → α → Bool) (x y : Option α) : Option Bool :=
